@@ -64,6 +64,17 @@ Definition L_swarm_listen_loop := cl fn_swarm_listen_loop swarm_listen_loop.
 Definition L_swarm_listen_conn := inline_all [("swarm_addconn", L_swarm_addconn)] (cl fn_swarm_listen_conn swarm_listen_conn).
 Definition L_swarm_dialaddr := cl fn_swarm_dialaddr swarm_dialaddr.
 
+Definition L_identify_conn := cl fn_identify_conn identify_conn.
+Definition L_tcpreuse_run := cl fn_tcpreuse_run tcpreuse_run.
+Definition L_tcpreuse_go := inline_all [("identify_conn", L_identify_conn)] (cl fn_tcpreuse_go tcpreuse_go).
+
+Definition L_wt_dial_scope := cl fn_wt_dial_scope wt_dial_scope.
+Definition L_wt_dial := inline_all [("wt_dial_scope", L_wt_dial_scope)] (cl fn_wt_dial wt_dial).
+Definition L_wt_http_scope := cl fn_wt_http_scope wt_http_scope.
+Definition L_wt_http := inline_all [("wt_http_scope", L_wt_http_scope)] (cl fn_wt_http wt_http).
+Definition L_relay_dial_up := inline_all lib1 (cl fn_relay_dial_up relay_dial_up).
+Definition L_relay_dial := inline_all (("relay_dial_up", L_relay_dial_up) :: lib1) (cl fn_relay_dial relay_dial).
+
 Definition st_conn := mkSt Held Held Absent Absent 0 false None None [] false.   (* raw conn + scope given *)
 Definition st_raw := mkSt Held Absent Absent Absent 0 false None None [] false.    (* raw conn given, scope is the caller's *)
 Definition st_stream := mkSt Absent Absent Held Held 0 false None None [] false.
@@ -89,7 +100,13 @@ Definition entries : list (string * bool * st * list (list aev)) :=
    ("Swarm.addConn", true, st_conn, L_swarm_addconn);
    ("Swarm.AddListenAddr accept-loop iteration", false, st0, L_swarm_listen_loop);
    ("Swarm.AddListenAddr connection goroutine", false, st_conn, L_swarm_listen_conn);
-   ("Swarm.dialAddr", true, st0, L_swarm_dialaddr)].
+   ("Swarm.dialAddr", true, st0, L_swarm_dialaddr);
+   ("tcpreuse identifyConnType", true, st_raw, L_identify_conn);
+   ("tcpreuse multiplexedListener.run iteration", false, st0, L_tcpreuse_run);
+   ("tcpreuse multiplexedListener.run connection goroutine", false, st_conn, L_tcpreuse_go);
+   ("webtransport transport.Dial", true, st0, L_wt_dial);
+   ("webtransport listener.httpHandler", false, st0, L_wt_http);
+   ("circuitv2 client.Dial", true, st0, L_relay_dial)].
 
 Definition entry_ok (e : string * bool * st * list (list aev)) : bool :=
   let '(_, vr, init, ps) := e in forallb (path_ok vr init) ps.
